@@ -295,6 +295,13 @@ def run_rules(ctx, res):
     for v in res.violations:
         if v.key == "D-tref|get_type":
             v.rule = SITE
+    run_immut_rules(ctx, res, mir)
+
+
+def run_immut_rules(ctx, res, mir=None):
+    from ..mir import Mir, Exprs, canon, strip_transparent, TRANSPARENT_CALLS, is_clone_path
+    PR, FL, SITE, IMM = "R-C13-printer", "R-C13-flatten", "R-C13-site", "R-C13-immut"
+    mir = mir or Mir(ctx["facts"]["mir"])
     # ---- immut: the type_ field of the validated terminal variant
     owner = [p for p in mir.adts if p.endswith("validated_file::TerminalVariant")]
     if len(owner) != 1:
